@@ -110,6 +110,10 @@ impl<VM: VMBinding> GCWorkScheduler<VM> {
 
     /// Surrender the `GCWorker` struct of a GC worker when it exits.
     pub fn surrender_gc_worker(&self, worker: Box<GCWorker<VM>>) {
+        #[cfg(feature = "verif")]
+        crate::util::verif::rt::sched_point(crate::util::verif::rt::Kind::SchedOther, 1);
+        #[cfg(feature = "verif")]
+        crate::util::verif::rt::event("surrender", worker.ordinal, 0);
         let all_surrendered = self.worker_group.surrender_gc_worker(worker);
 
         if all_surrendered {
@@ -125,6 +129,8 @@ impl<VM: VMBinding> GCWorkScheduler<VM> {
     /// workers.  `tls` is the VM thread that requests GC threads to be re-spawn, and will be
     /// passed down to [`crate::vm::Collection::spawn_gc_thread`].
     pub fn respawn_gc_threads_after_forking(self: &Arc<Self>, tls: VMThread) {
+        #[cfg(feature = "verif")]
+        crate::util::verif::rt::event("respawn", 0, 0);
         self.worker_group.respawn(tls)
     }
 
@@ -302,6 +308,8 @@ impl<VM: VMBinding> GCWorkScheduler<VM> {
             buckets_updated = buckets_updated || bucket_opened;
             if bucket_opened {
                 probe!(mmtk, bucket_opened, id);
+                #[cfg(feature = "verif")]
+                crate::util::verif::rt::event("update_buckets_opened", id as usize, 0);
                 new_packets = new_packets || !bucket.is_drained();
                 if new_packets {
                     // Quit the loop. There are already new packets in the newly opened buckets.
@@ -367,8 +375,12 @@ impl<VM: VMBinding> GCWorkScheduler<VM> {
     /// Get a schedulable work packet without retry.
     fn poll_schedulable_work_once(&self, worker: &GCWorker<VM>) -> Steal<Box<dyn GCWork<VM>>> {
         let mut should_retry = false;
+        #[cfg(feature = "verif")]
+        crate::util::verif::rt::sched_point(crate::util::verif::rt::Kind::PollBegin, worker.ordinal);
         // Try find a packet that can be processed only by this worker.
         if let Some(w) = worker.shared.designated_work.pop() {
+            #[cfg(feature = "verif")]
+            crate::util::verif::rt::event_str("designated_pop", w.get_type_name(), worker.ordinal, 0);
             return Steal::Success(w);
         }
         // Try get a packet from a work bucket.
@@ -383,6 +395,10 @@ impl<VM: VMBinding> GCWorkScheduler<VM> {
         for (id, worker_shared) in self.worker_group.workers_shared.iter().enumerate() {
             if id == worker.ordinal {
                 continue;
+            }
+            #[cfg(feature = "verif")]
+            if !worker_shared.stealer.as_ref().unwrap().is_empty() {
+                crate::util::verif::rt::sched_point(crate::util::verif::rt::Kind::LocalQueue, id);
             }
             match worker_shared.stealer.as_ref().unwrap().steal() {
                 Steal::Success(w) => return Steal::Success(w),
@@ -464,7 +480,11 @@ impl<VM: VMBinding> GCWorkScheduler<VM> {
                 self.assert_all_open_buckets_are_empty();
 
                 // Find more work for workers to do.
+                #[cfg(feature = "verif")]
+                crate::util::verif::rt::event("designated_pending", self.worker_group.has_designated_work() as usize, 0);
                 let found_more_work = self.find_more_work_for_workers();
+                #[cfg(feature = "verif")]
+                crate::util::verif::rt::event("find_more_work", found_more_work as usize, 0);
 
                 if found_more_work {
                     LastParkedResult::WakeAll
@@ -560,6 +580,8 @@ impl<VM: VMBinding> GCWorkScheduler<VM> {
     /// Return `true` if any concurrent work packets have been scheduled.
     fn on_gc_finished(&self, worker: &GCWorker<VM>) -> bool {
         // All GC workers must have parked by now.
+        #[cfg(feature = "verif")]
+        crate::util::verif::rt::event("gc_finished", worker.ordinal, 0);
         debug_assert!(!self.worker_group.has_designated_work());
         self.debug_assert_all_stw_buckets_empty();
 
@@ -632,6 +654,8 @@ impl<VM: VMBinding> GCWorkScheduler<VM> {
         // Set to NotInGC after everything, and right before resuming mutators.
         mmtk.set_gc_status(GcStatus::NotInGC);
         <VM as VMBinding>::VMCollection::resume_mutators(worker.tls);
+        #[cfg(feature = "verif")]
+        crate::util::verif::rt::event("gc_finished_end", worker.ordinal, 0);
 
         concurrent_work_scheduled
     }
